@@ -452,3 +452,45 @@ def rule_cache_open_flags(ctx):
                 ctx.violated("MCFLAG", key, f.where(s.get("l", f.line)), "mcache_open is called with flags `%s`: pages of this cache start out as uninitialised memory instead of going through the page-in filter that supplies the fill value" % render(a)[:30])
     ctx.floor("MCFLAG", 2, n, "(mcache_open calls)")
     return n
+
+
+def rule_header_limit_shared(ctx):
+    """HDRLIMIT (C04, C02): the special header of a chunked element has no fixed length (33 + 12 x rank + fill value bytes), and HMCcreate
+    writes whatever length that comes to.  A routine that reads the header back may bound the stored length only by a limit the
+    creator enforces as well; a reader-side limit the creator does not know makes elements that were created and written
+    without complaint impossible to open.  Every comparison of the header length with a positive constant in a reading routine
+    of hchunks.c has a counterpart with the same constant in HMCcreate."""
+    from .facts import kind, strip, walk, render, is_int, int_val
+    prog = ctx.prog
+    limits = {}
+    readers = 0
+    for f in prog.lib_funcs():
+        if not f.rel.endswith("hdf/src/hchunks.c"):
+            continue
+        uses = [x for _b, _i, _s, x in f.nodes(True) if (x[0] == "mem" and x[2] == "sp_tag_header_len") or (x[0] == "var" and x[1] == "sp_tag_header_len")]
+        if not uses:
+            continue
+        readers += 1
+        for _b, _i, s, c in f.nodes(True):
+            if c[0] == "bin" and c[1] in (">", ">=", "<", "<="):
+                for a, o in ((c[2], c[3]), (c[3], c[2])):
+                    a = strip(a)
+                    nm = a[2] if kind(a) == "mem" else (a[1] if kind(a) == "var" else None)
+                    if nm == "sp_tag_header_len" and is_int(o) and int_val(o) > 0:
+                        limits.setdefault(f.name, set()).add((int_val(o), s.get("l", f.line)))
+    creator = limits.get("HMCcreate", set())
+    n = 0
+    for fn, ls in sorted(limits.items()):
+        if fn == "HMCcreate":
+            continue
+        f = prog.func(fn)
+        for k, line in sorted(ls):
+            n += 1
+            key = "HDRLIMIT:%s:%d" % (fn, k)
+            if any(k2 <= k for k2, _l in creator):
+                ctx.holds("HDRLIMIT", key, f.where(line), "the reader's limit %d is enforced by HMCcreate as well" % k, nontrivial=True)
+            else:
+                ctx.violated("HDRLIMIT", key, f.where(line), "%s refuses a chunk header longer than %d bytes, a limit HMCcreate does not enforce: a chunked element with a longer header (rank >= %d) is created and written and cannot be opened again" % (fn, k, (k - 33) // 12 + 1))
+    ctx.holds("HDRLIMIT", "HDRLIMIT:all", "hdf/src/hchunks.c", "%d routines handle the chunk header length; %d reader-side limits" % (readers, n), nontrivial=False)
+    ctx.floor("HDRLIMIT", 3, readers, "(routines of hchunks.c that handle the special header length)")
+    return n
